@@ -65,11 +65,11 @@ def playCmd (script : String) : IO Unit := do
     player := p'
     out.putStrLn res.render
 
-def exploreCmd (path : String) (depth : Nat) (names : List String) : IO Unit := do
+def exploreCmd (path : String) (depth : Nat) (shuffle : Bool) (names : List String) : IO Unit := do
   let text ← IO.FS.readFile path
   let out ← IO.getStdout
-  let (log, complete) := Explore.exploreDoc text names depth 1
-  for l in log do out.putStrLn (Json.str l).render
+  let (log, complete) := Explore.exploreDoc text names shuffle depth 1
+  for l in log do out.putStrLn l.render
   out.putStrLn (Json.obj [("complete", .bool complete)]).render
 
 def main (args : List String) : IO UInt32 := do
@@ -77,6 +77,6 @@ def main (args : List String) : IO UInt32 := do
   | ["play", script] => playCmd script; pure 0
   | ["audit", path] => auditCmd path; pure 0
   | ["expr", path] => exprCmd path; pure 0
-  | "explore" :: path :: depth :: names => exploreCmd path depth.toNat! names; pure 0
+  | "explore" :: path :: depth :: shuffle :: names => exploreCmd path depth.toNat! (shuffle == "shuffle") names; pure 0
   | ["pathprobe"] => pathProbeLoop (← IO.getStdin) (← IO.getStdout); pure 0
   | _ => IO.eprintln "usage: inkmodel audit <story.json> | pathprobe"; pure 2
